@@ -30,6 +30,16 @@ def budget(tier):
 def gen_case(rng, tier, k):
     nmax = 6 if tier == "quick" else 7
     bnet = common.g_mixed(rng, nmax=nmax, p_core=0.2)
+    if rng.random() < 0.12:
+        # functions with many regulators and shared sub-structure (large BDDs for the implicant generator)
+        k = rng.randint(6, 7)
+        ins = [f"a{j}" for j in range(k)]
+        core = common.rand_expr(rng, ins, 4)
+        p, q = rng.sample(ins, 2)
+        lines = [f"{v}, {v}" if rng.random() < 0.5 else f"{v}, {common.rand_expr(rng, ins, 2)}" for v in ins]
+        lines.append(f"x, ({core}) & (!{p} | !{q} | !x)")
+        lines.append(f"y, (({core}) & {p}) | (!({core}) & x)")
+        bnet = "\n".join(lines)
     return {"bnet": bnet, "free_inputs": rng.random() < 0.2,
             "spaces": [[[rng.randrange(64), rng.randint(0, 1)] for _ in range(rng.randint(1, 3))] for _ in range(3)],
             "trap_pick": rng.randrange(1 << 20), "ops": gen_ops(rng, rng.randint(1, 3), allow_unmodelled=False),
@@ -163,7 +173,10 @@ def run_case(case):
         T = ni.unsp(traps[case["trap_pick"] % len(traps)])
         P = percolate_space(sd.symbolic, T)
         rc = case["remove_constants"]
-        pbn = percolate_network(sd.network, T, sd.symbolic, remove_constants=rc)
+        if case["trap_pick"] % 2 == 0:
+            pbn = percolate_network(sd.network, T, sd.symbolic, remove_constants=rc)
+        else:
+            pbn = percolate_network(sd.network, T, remove_constants=rc)     # graph built by the function itself
         pni = common.NetInfo(pbn)
         free = [v for v in ni.names if v not in P]
         if rc and sorted(pni.names) != sorted(free):
